@@ -1056,7 +1056,9 @@ func (it *iterCheck) write(v types.Object, delta int64, isInc bool, s Facts) {
 		p := parts[3]
 		mentions := false
 		// does P mention v? compare identifiers by name within source text tokens
-		for _, tok := range strings.FieldsFunc(p, func(r rune) bool { return !(r == '_' || r >= '0' && r <= '9' || r >= 'a' && r <= 'z' || r >= 'A' && r <= 'Z') }) {
+		for _, tok := range strings.FieldsFunc(p, func(r rune) bool {
+			return !(r == '_' || r >= '0' && r <= '9' || r >= 'a' && r <= 'z' || r >= 'A' && r <= 'Z')
+		}) {
 			if tok == v.Name() {
 				mentions = true
 			}
